@@ -92,6 +92,7 @@ def pagerank[S](
     base_score = (1.0 - damping) / n
 
     iterations = 0
+    max_diff = 0.0  # max_iter=0: no sweep ran (the Rust kernel reports 0 as well)
     for iterations in range(1, max_iter + 1):
         new_scores: dict[S, float] = {}
         max_diff = 0.0
